@@ -2,6 +2,7 @@ package main
 
 import (
 	"bufio"
+	"context"
 	"encoding/hex"
 	"encoding/json"
 	"flag"
@@ -361,6 +362,7 @@ type parseStats struct {
 	Samples       []string       `json:"samples"`
 	ShiftChecks   int            `json:"shift_checks"`
 	OtherWordings int            `json:"unknown_error_wordings"`
+	PlainViaAPI   int            `json:"plain_queries_run_through_prepare"`
 }
 
 func bucket(n int) string {
@@ -472,7 +474,14 @@ func cmdParse(args []string) int {
 		}
 		g := &parseGen{r: newRng(*seed), mode: *mode}
 		for i := 0; i < *n; i++ {
-			queries = append(queries, g.next())
+			q := g.next()
+			queries = append(queries, q)
+			if *mode == "c01" && i%5 == 0 {
+				// the same query without sigils (no SQLair expression: must reach the driver unchanged),
+				// followed by a copy that differs from it only in white space
+				plain := strings.NewReplacer("$", "", "&", "").Replace(q)
+				queries = append(queries, plain, wsVariant(plain, g.r))
+			}
 		}
 	}
 
@@ -495,6 +504,15 @@ func cmdParse(args []string) int {
 			st.ShiftChecks += 3
 		}
 		parseOracles(q, r, shifts, addViol)
+		if r.ok && !strings.ContainsAny(q, "$&") && len(q) > 0 {
+			// C01 through the public API: a query without SQLair expressions is sent unchanged
+			st.PlainViaAPI++
+			if got, err := driverSQLOfPlain(q); err != nil {
+				addViol(violation{"C01", "plain-query-not-runnable", "x" + hex.EncodeToString([]byte(q)), err.Error()})
+			} else if got != q {
+				addViol(violation{"C01", "plain-query-changed", "x" + hex.EncodeToString([]byte(q)), fmt.Sprintf("driver received %q", got)})
+			}
+		}
 		caseStart.Store(0)
 
 		st.Cases++
@@ -549,6 +567,51 @@ func cmdParse(args []string) int {
 	os.WriteFile(*outDir+"/stats.json", sb, 0o644)
 	fmt.Printf("parse: %d cases, %d accepted (%d with expressions), %d rejected, %d oracle violations\n", st.Cases, st.Accepted, st.WithExpr, st.Rejected, len(violations))
 	return 0
+}
+
+// wsVariant returns q with one run of white space changed (doubled, or a blank turned into a tab or
+// a newline), wherever it stands: between tokens, inside a literal, inside a comment.
+func wsVariant(q string, r *rng) string {
+	var idx []int
+	for i := 0; i < len(q); i++ {
+		if q[i] == ' ' || q[i] == '\t' || q[i] == '\n' {
+			idx = append(idx, i)
+		}
+	}
+	if len(idx) == 0 {
+		return q + " "
+	}
+	i := idx[r.intn(len(idx))]
+	switch r.intn(3) {
+	case 0:
+		return q[:i] + string(q[i]) + q[i:]
+	case 1:
+		return q[:i] + "\t" + q[i+1:]
+	default:
+		return q[:i] + " " + q[i:]
+	}
+}
+
+// driverSQLOfPlain prepares and runs a query through the public API on the fake driver and returns
+// the SQL text the driver was asked to prepare.
+func driverSQLOfPlain(q string) (string, error) {
+	stmt, err := sqlair.Prepare(q)
+	if err != nil {
+		return "", fmt.Errorf("Prepare: %v", err)
+	}
+	sqldb, f := openFake()
+	defer dropFakeDB(f.name)
+	defer sqldb.Close()
+	db := sqlair.NewDB(sqldb)
+	if err := db.Query(context.Background(), stmt).Run(); err != nil {
+		return "", fmt.Errorf("Run: %v", err)
+	}
+	for _, ev := range f.log() {
+		if ev.Kind == "prepare" {
+			return ev.SQL, nil
+		}
+	}
+	return "", fmt.Errorf("no prepare event")
 }
 
 // enumerateTokens enumerates all strings of 1..k tokens over a small alphabet.
